@@ -176,14 +176,18 @@ class _CountingIterator:
 class StepMonitor:
     """Step counter with a logical budget: PY_START (every Python function entry) + JUMP (every loop back-edge) events.
 
-    LINE events are deliberately not used for RAISING: a LINE event also fires on the `with` line when a with-block is
-    left normally, i.e. after the body's exception table entry ended and before `__exit__` ran; an exception injected
-    there leaks the lock (observed: Trampoline.run's `finally: with self._lock` dead-locked).  An exception injected at a
-    function entry behaves like the call raising, one injected at a loop back-edge is inside whatever block encloses the
-    loop; both are points where ordinary exceptions can occur.  One instance per process."""
+    The budget exception is injected at a FUNCTION ENTRY (PY_START), which behaves like the call itself raising and is
+    therefore always inside the exception-table range of an enclosing `with`/`try`.  LINE and JUMP events are unsafe
+    injection points: a LINE event fires on the `with` line when the block is left normally (after the protected range,
+    before `__exit__`), and the JUMP_BACKWARD of a loop that ends a with-body lies outside the protected range as well
+    (both observed here: an exception injected there leaked Trampoline._lock and `Trampoline.run`'s
+    `finally: with self._lock` dead-locked).  JUMP events are only counted; the exception is injected at a loop
+    back-edge only when CALLFREE further events passed without any function entry (a call-free spinning loop).
+    One instance per process."""
 
     _instance: Any = None
     GRACE = 20_000      # events granted to the unwinding code (finally blocks of the trampoline) before raising again
+    CALLFREE = 50_000   # events after the budget without a function entry before a loop back-edge is used instead
 
     @classmethod
     def get(cls) -> "StepMonitor":
@@ -217,7 +221,7 @@ class StepMonitor:
 
     def _jump(self, code: Any, offset: int, dest: int) -> None:
         self.n += 1
-        if self.n > self.limit:
+        if self.n > self.limit + self.CALLFREE:
             self.limit = self.n + self.GRACE
             self.trips += 1
             self.trip_log.append("loop in %s (%s) at offset %d" % (code.co_qualname, code.co_filename.rsplit("/", 1)[-1], offset))
@@ -755,7 +759,7 @@ def execute(obs: Any, ssched: Any, pulls: Pulls, needed: int, step_budget: int =
         exc = e
     r = {"outcome": outcome, "exc": exc, "out": out, "steps": n_steps, "pulls": pulls.n,
          "recursion_errors": steps.recursion_errors, "inline_first": pulls.inline_first,
-         "inline_last": pulls.inline_last,
+         "inline_last": pulls.inline_last, "step_trip_at": list(steps.trip_log),
          "late_pulls": 0, "late_out": 0, "trampoline_idle": trampoline_idle()}
     if not r["trampoline_idle"] or outcome != "returned":
         repair_trampoline()     # an injected exception may have interrupted the trampoline's own clean-up
@@ -852,7 +856,7 @@ def run_case(seed: int, idx: int, res: UnitResult) -> dict:
         mech = "C14:%s:%s:%s:%s:%s" % (kind, family, config, case["carrier"], case["term"])
     res.violation(mech, {"why": why, "case": desc, "needed_source_elements": needed, "pulled": r["pulls"],
                          "steps": r["steps"], "produced_during_subscription_setup": bool(inline),
-                         "recursion_errors_raised": r["recursion_errors"],
+                         "recursion_errors_raised": r["recursion_errors"], "step_budget_injected_at": r["step_trip_at"],
                          "expected": show(case["expected"]) , "expected_terminal": case["terminal"],
                          "observed_so_far": show_out(r["out"])},
                   {"seed": seed, "idx": idx})
